@@ -273,7 +273,7 @@ Fixpoint dot (a b : list Z) : Z :=
 Definition ideal_sample (taps u : list Z) (n : nat) : Z := dot taps (rev (firstn (S n) u)).
 
 (** the whole response, computed with the reversed prefix as an accumulator
-    ([ideal_response_nth] in LemmasMod_F: its n-th element is [ideal_sample taps u n]) *)
+    ([ideal_response_nth] in LemmasMod_I: its n-th element is [ideal_sample taps u n]) *)
 Fixpoint ideal_response_from (taps past u : list Z) : list Z :=
   match u with
   | [] => []
